@@ -109,6 +109,12 @@ def _ghost_only(text):
                 return False
             i = match_close(m, j) + 1
             continue
+        if m.startswith("broadcast use ", i):
+            j = m.find(";", i)
+            if j < 0:
+                return False
+            i = j + 1
+            continue
         if m.startswith("let ghost ", i):
             depth = 0
             j = i
